@@ -633,14 +633,20 @@ package logqlengine
 
 //@ scope json.go
 
+// Decoding a JSON value builds a fresh pdata value; nothing of the caller's state is written
+// (pdata containers are dependencies: their methods do not touch the program heap).
 //@ func parseValue
-//@   trusted
+//@   modifies nothing
+//@ func parseValue$1
+//@   modifies nothing
+//@ func parseValue$2
 //@   modifies nothing
 
+// The default build of decodeStr views the string's bytes through package unsafe (no copy);
+// its frame is assumed, not verified: unsafe code is outside the subset.
 //@ func decodeStr
 //@   trusted
 //@   modifies nothing
-//@   ensures ret0 != nil
 
 //@ func (*JSONExtractor).Process
 //@   requires set.labels != nil
